@@ -615,7 +615,9 @@ impl ParserListener for Screen {
             column = self.columns - 1;
         }
 
-        self.cursor.x = column;
+        // A stop set at the pending-wrap column or before the screen was
+        // narrowed must not carry the cursor past the last column.
+        self.cursor.x = u32::min(column, self.columns - 1);
     }
 
     /// Move the cursor to the beginning of the current line.
